@@ -103,6 +103,23 @@ def gen_frame_match(r):
     return _deffs(defined) + DECLS + "\n".join(body) + "\n"
 
 
+def gen_frame_match_small(r):
+    """one or two instructions only, so that what the instruction names is all the program uses"""
+    defined = r.sample(FRAMES, r.randrange(1, 6))
+    body = []
+    for _ in range(r.randrange(1, 3)):
+        k = r.randrange(4)
+        if k == 0:
+            body.append("FENCE " + " ".join(sorted(set(r.choice("0123") for _ in range(r.randrange(1, 3))))))
+        elif k == 1:
+            body.append(r.choice(["RESET 0", "RESET 1", "RESET 2", "RESET", "FENCE"]))
+        elif k == 2:
+            body.append(f"DELAY {r.choice(['0', '1', '0 1', '2'])} 1e-6")
+        else:
+            body.append(_rf_instruction(r, FRAMES))
+    return _deffs(defined) + DECLS + "\n".join(body) + "\n"
+
+
 def gen_memory_accesses(r):
     frames = FRAMES[:4]
     body = [r.choice(CLASSICAL) if r.random() < 0.7 else _rf_instruction(r, frames) for _ in range(r.randrange(3, 12))]
@@ -451,6 +468,38 @@ def gen_move_literals(r):
     return "\n".join(out) + "\n"
 
 
+def gen_real_literals(r):
+    """decimal reals with many significant digits, some of them next to a rounding midpoint"""
+    out = []
+    for _ in range(12):
+        k = r.randrange(5)
+        if k == 0:
+            out.append(f"{r.randrange(1, 1000)}." + "".join(r.choice("0123456789") for _ in range(r.randrange(15, 36))))
+        elif k == 1:      # 1 + 2^-53 +- a little: just above / below the midpoint between 1.0 and the next f64
+            out.append("1.00000000000000011102230246251565404236316680908203125" + r.choice(["", "1", "0000000001", ""]) if r.random() < 0.5
+                       else "1.0000000000000001110223024625156540423631668090820312" + r.choice(["4", "49999", "5"]))
+        elif k == 2:
+            out.append("0." + "0" * r.randrange(0, 6) + "".join(r.choice("0123456789") for _ in range(r.randrange(18, 30))))
+        elif k == 3:
+            out.append("".join(r.choice("123456789") for _ in range(r.randrange(17, 25))) + ".5")
+        else:
+            out.append(f"{r.randrange(1, 10)}." + "".join(r.choice("0123456789") for _ in range(r.randrange(17, 25))) + f"e{r.choice(['-', '', '+'])}{r.randrange(0, 30)}")
+    return "\n".join(out) + "\n"
+
+
+def gen_long_lines(r):
+    """lines longer than any snippet a diagnostic might cut out, with multi-byte characters and something that does
+    not lex somewhere in them (no-panic property)"""
+    filler = ["X 0 ", "RX(0.5) 1 ", "# comment ", "é", "→", "日本", "ß", " ", "q", " "]
+    bad = ["?", "$", "`", "~", "€", "\\", "'"]
+    line = ""
+    while len(line.encode()) < r.randrange(60, 140):
+        line += r.choice(filler)
+    pos = r.randrange(0, len(line) + 1)
+    line = line[:pos] + r.choice(bad) + line[pos:]
+    return r.choice(["", "DECLARE ro BIT\n"]) + line + r.choice(["\n", ""])
+
+
 def gen_statements(r):
     """nearly valid statements with extreme or oddly placed literals (no-panic property)"""
     lit = lambda: r.choice(["0", "1", "-1", "+1", "+1.0", "-1.5", "9223372036854775807", "-9223372036854775808", "9223372036854775808",
@@ -490,7 +539,9 @@ def gen_names(r):
     out.append(f"LABEL @{r.choice(['Loop', 'END', 'start_Here'])}")
     out.append(f"PRAGMA {r.choice(['Foo', 'bar', 'INITIAL_rewiring'])} x")
     if r.random() < 0.5:
-        out.append(f"DEFWAVEFORM {r.choice(['myWave', 'W', 'gaussQ'])}:\n    1, 2")
+        out.append(f"DEFWAVEFORM {r.choice(['myWave', 'W', 'gaussQ', 'my-wf', 'q0-q1/CZ-pulse', 'ro-pulse_x'])}:\n    1, 2")
+    if r.random() < 0.3:
+        out.append(f"DEFGATE {r.choice(['my-gate', 'A-b-C'])} AS MATRIX:\n    1, 0\n    0, 1")
     if r.random() < 0.5:
         fn = r.choice(["Rf", "ro_RX", "XY"])
         out.append(f'DEFFRAME 0 "{fn}":\n    SAMPLE-RATE: 1.0\nPULSE 0 "{fn}" {r.choice(["Flat", "gaussian", "myWave"])}(duration: 1, iq: 1)')
@@ -501,7 +552,8 @@ def gen_names(r):
 GENERATORS = {
     "frame_order": [(gen_schedule, 300)],
     "memory_order": [(gen_memory_schedule, 250), (gen_schedule, 100)],
-    "frame_match": [(gen_frame_match, 250)],
+    "frame_match": [(gen_frame_match, 250), (gen_frame_match_small, 150)],
+    "real_literal": [(gen_real_literals, 150)],
     "memory_accesses": [(gen_memory_accesses, 200)],
     "type_check_oracle": [(gen_type_check, 300), (gen_type_check_verdicts, 300)],
     "cfg_offsets": [(gen_cfg, 400)],
@@ -521,7 +573,7 @@ GENERATORS = {
     "loop_runs": [(gen_loop, 150)],
     "expr_literal": [(gen_literals, 100)],
     "literal_exact": [(gen_move_literals, 100)],
-    "parse_program": [(gen_tokens, 1000), (gen_statements, 1000)],
+    "parse_program": [(gen_tokens, 1000), (gen_statements, 1000), (gen_long_lines, 500)],
     "name_spelling": [(gen_names, 150)],
 }
 
